@@ -50,7 +50,7 @@ def _gen_script(r: random.Random, maxlen: int) -> list:
         if not in_txn and x > 0.9:
             s.append([r.choice(["commit", "rollback"]), r.randint(0, 1), r.choice(["sql", "api"])])
             continue
-        s.append([r.choice(["ins_own", "ins_own", "ins_sh", "ins_sh", "upd_own", "del_own", "fail", "sel", "merge_own"]), r.randint(0, 1)])
+        s.append([r.choice(["ins_own", "ins_own", "ins_sh", "ins_sh", "upd_own", "del_own", "fail", "sel", "merge_own", "wp_own"]), r.randint(0, 1)])
     return s
 
 
@@ -80,6 +80,7 @@ def gen_cases(tier: str, seed: int):
             for how in ("sql", "api"):
                 s0 = [["begin", 0], ["ins_own", 0], [end1, 0, how], ["begin", 1], ["ins_own", 1], ["upd_own", 0], [end2, 1, how], ["sel", 0]]
                 yield {"scripts": [s0, [["sel", 0]]], "order": [0] * len(s0) + [1]}
+                yield {"scripts": [s0, [["sel", 0]]], "order": [0] * len(s0) + [1], "threaded": True}
             s1 = [["begin", 0], ["ins_own", 0], ["fail", 1], ["ins_sh", 0], [end1, 0, "sql"], ["sel", 1], ["begin", 0], ["fail", 0], [end2, 1, "api"]]
             yield {"scripts": [s1, [["sel", 0], ["ins_sh", 0]]], "order": [0] * 5 + [1] + [0] * 4 + [1]}
     npairs = 40 if tier == "quick" else 1200
@@ -93,7 +94,7 @@ def gen_cases(tier: str, seed: int):
         scripts = [_gen_script(r, 7) for _ in range(k)]
         order = [i for i, s in enumerate(scripts) for _ in s]
         r.shuffle(order)
-        yield {"scripts": scripts, "order": order}
+        yield {"scripts": scripts, "order": order, "threaded": r.random() < 0.35}
 
 
 _state: dict[str, Any] = {}
@@ -106,6 +107,18 @@ def setup_worker(env: core.Env) -> None:
     nodb_conns = [fs.connect() for _ in range(3)]
     nodb_curs = [[c.cursor(), c.cursor()] for c in nodb_conns]
     _state.update(fs=fs, conns=conns, curs=curs, raw=core.raw_root(fs).cursor(), uid=itertools.count(1), nodb_conns=nodb_conns, nodb_curs=nodb_curs)
+
+
+def _in_thread(fn: Any) -> Any:
+    import threading
+
+    box: list = []
+    th = threading.Thread(target=lambda: box.append(fn()))
+    th.start()
+    th.join(60)
+    if not box:
+        raise core.Inconclusive("helper thread did not finish")
+    return box[0]
 
 
 def _apply(table: Counter, op: tuple) -> Counter:
@@ -180,6 +193,16 @@ def run_case(case: dict, env: core.Env) -> None:
                 outs.append(c)
         return outs
 
+    threaded = bool(case.get("threaded"))
+
+    def run(sql: str) -> dict:
+        """Through the chosen cursor; in threaded cases cursor 1 is made and used in a helper thread of its own (the
+        connection, not the thread, owns the transaction)."""
+        if threaded and cidx == 1:
+            env.count("statements_through_thread_made_cursor")
+            return _in_thread(lambda: core.run_stmt(conns[ci].cursor(), sql))
+        return core.run_stmt(cur, sql)
+
     for step, ci in enumerate(order):
         op = scripts[ci][pos[ci]]
         pos[ci] += 1
@@ -202,26 +225,39 @@ def run_case(case: dict, env: core.Env) -> None:
 
         out = None
         if kind == "begin":
-            out = core.run_stmt(cur, r.choice(["BEGIN", "begin transaction", "BEGIN TRANSACTION", "Begin"]))
+            out = run(r.choice(["BEGIN", "begin transaction", "BEGIN TRANSACTION", "Begin"]))
             txn[ci] = {"hist": {t: [Counter(c)] for t, c in committed.items()}, "ops": []}
         elif kind in ("ins_own", "ins_sh"):
             t = own if kind == "ins_own" else "SH"
             row = (next(_state["uid"]), ci)
-            out = core.run_stmt(cur, f"INSERT INTO {P}{t} VALUES ({row[0]}, {row[1]})")
+            out = run(f"INSERT INTO {P}{t} VALUES ({row[0]}, {row[1]})")
             write(t, ("ins", row))
+        elif kind == "wp_own":
+            # rows loaded with write_pandas are statements of the session like any other
+            import pandas as pd
+
+            import fakesnow.fakes as fakes
+
+            row = (next(_state["uid"]), ci)
+            try:
+                fakes.write_pandas(conns[ci], pd.DataFrame({"ID": [row[0]], "V": [row[1]]}), own, database="DB1", schema="S1")
+                out = {"ok": True, "rows": None}
+            except Exception as e:  # noqa: BLE001
+                out = {"ok": False, "exc": core.exc_info(e)}
+            write(own, ("ins", row))
         elif kind == "upd_own":
-            out = core.run_stmt(cur, f"UPDATE {P}{own} SET V = V + 1")
+            out = run(f"UPDATE {P}{own} SET V = V + 1")
             write(own, ("upd",))
         elif kind == "del_own":
-            out = core.run_stmt(cur, f"DELETE FROM {P}{own} WHERE ID % 2 = 0")
+            out = run(f"DELETE FROM {P}{own} WHERE ID % 2 = 0")
             write(own, ("del",))
         elif kind == "merge_own":
             mid = next(_state["uid"]) if r.random() < 0.5 else min((i for (i, _v) in view(ci, own)[0]), default=next(_state["uid"]))
-            out = core.run_stmt(cur, f"MERGE INTO {P}{own} t USING (SELECT {mid} AS ID, 500 AS V) s ON t.ID = s.ID "
+            out = run(f"MERGE INTO {P}{own} t USING (SELECT {mid} AS ID, 500 AS V) s ON t.ID = s.ID "
                                      "WHEN MATCHED THEN UPDATE SET V = s.V WHEN NOT MATCHED THEN INSERT (ID, V) VALUES (s.ID, s.V)")
             write(own, ("merge", mid))
         elif kind == "fail":
-            o = core.run_stmt(cur, "SELECT * FROM no_such_table_c13")
+            o = run("SELECT * FROM no_such_table_c13")
             if o["ok"]:
                 env.witness("C13/fail-statement-succeeded", str(o))
         elif kind == "sel":
@@ -229,13 +265,15 @@ def run_case(case: dict, env: core.Env) -> None:
         elif kind in ("commit", "rollback"):
             had = txn[ci] is not None
             if op[2] == "sql":
-                out = core.run_stmt(cur, kind.upper() if r.random() < 0.5 else kind)
+                out = run(kind.upper() if r.random() < 0.5 else kind)
             else:
-                try:
-                    getattr(conns[ci], kind)()
-                    out = {"ok": True, "rows": None}
-                except Exception as e:  # noqa: BLE001
-                    out = {"ok": False, "exc": core.exc_info(e)}
+                def api(kind: str = kind) -> dict:
+                    try:
+                        getattr(conns[ci], kind)()
+                        return {"ok": True, "rows": None}
+                    except Exception as e:  # noqa: BLE001
+                        return {"ok": False, "exc": core.exc_info(e)}
+                out = _in_thread(api) if threaded and cidx == 1 else api()
             if had:
                 env.count("commits_in_txn" if kind == "commit" else "rollbacks_in_txn")
                 if saw_txn_write[ci] and other_step_in_txn[ci]:
